@@ -376,7 +376,13 @@ def t_prim(ctx, prog):
                 elif posv != want:
                     ctx.violation('T-PRIM', name + '|advance', 'on success the position becomes %r, expected %r' % (posv, want), where)
                 else:
-                    ctx.ok('T-PRIM', name + '|ok')
+                    # which byte(s): the element at the position (peek: one behind it), the slice from the position
+                    want_val = {'current': '<self*.buf*[self*.pos]>', 'read': '<self*.buf*[self*.pos]>', 'peek': '<self*.buf*[self*.pos + 1]>',
+                                'read_slice': "slice('self*.buf*[self*.pos..n + self*.pos]', len=n)"}[name]
+                    if repr(val) != want_val:
+                        ctx.violation('T-PRIM', name + '|value', 'returns %r; expected %s (the input at the current position%s)' % (val, want_val, ' + 1' if name == 'peek' else ''), where)
+                    else:
+                        ctx.ok('T-PRIM', name + '|ok')
             else:
                 if val != 'EndOfInput':
                     ctx.violation('T-PRIM', name + '|class', 'exhausted input yields error class %s, expected EndOfInput' % val, where)
